@@ -100,6 +100,7 @@ func (sr *sessRun) script(toks []string) {
 			sr.trace = append(sr.trace, t)
 			sr.cancd[i] = true
 			sr.cancel[i]()
+			sr.holdProbe(i)
 		case 's':
 			i := num()
 			sr.trace = append(sr.trace, t)
@@ -132,6 +133,7 @@ func (sr *sessRun) script(toks []string) {
 			if sr.serve == "waitclose" {
 				sr.serve = "idle"
 				sr.afterBadClose(i)
+				sr.afterCloseHold()
 			} else if sr.serve == "handedpark" {
 				sr.serve = "handedpark-closed"
 			}
